@@ -29,6 +29,7 @@ mod idmap_oracle;
 mod suite_idmap;
 mod ser_gen;
 mod ser_oracle;
+mod ser_outside;
 mod ser_ws;
 mod suite_ser;
 mod suite_fws;
